@@ -622,7 +622,17 @@ impl BuildJob<'_> {
         }
         // rv might have changed up above
         if rv != EXIT_SUCCESS {
-            helpers::unlink(tmp_name).expect("failed to remove temporary output file");
+            // The failed script may have left anything at $3, including a
+            // directory: remove it, and never abort over it.
+            let removed = match helpers::unlink(tmp_name) {
+                Err(nix::errno::Errno::EISDIR) | Err(nix::errno::Errno::EPERM) => {
+                    fs::remove_dir_all(tmp_name).map_err(|e| e.to_string())
+                }
+                r => r.map_err(|e| e.to_string()),
+            };
+            if let Err(e) = removed {
+                log_err!("{:?}: cannot remove temporary output file: {}", t, e);
+            }
             if let Err(e) = sf.set_failed(ptx.state().env()) {
                 log_err!("{:?}: set failed: {}", t, e);
                 rv = EXIT_BUILD_JOB_ERROR;
